@@ -5,6 +5,7 @@ package checks
 import (
 	"fmt"
 	"net/http"
+	"net/url"
 	"strings"
 	"time"
 
@@ -18,7 +19,7 @@ func init() {
 	Register(&Check{
 		ID:          "C13",
 		Technique:   "complete enumeration of (Host, Origin) pairs assembled from scheme x userinfo x host edits x port x suffix against the real Upgrader with no CheckOrigin; oracle = RFC 3986 appendix-B authority extraction + A-Z folding",
-		Rule:        "cases = {8 Host values} x {7 scheme spellings} x {5 userinfo forms} x {all one-character substitutions/insertions/deletions of the host over a small alphabet, case variants, added/removed labels, prefix/suffix look-alikes, U+212A/U+017F/U+0131/full-width look-alikes, percent-escaped spellings, other IP literals} x {5 port forms} x {6 suffixes} + junk origins; complete product (free dimensions). non-trivial = Origin present and differs from the plain same-origin form; distinct by observation hash",
+		Rule:        "cases = {8 Host values} x {7 scheme spellings} x {5 userinfo forms} x {all one-character substitutions/insertions/deletions of the host over a small alphabet, case variants, added/removed labels, prefix/suffix look-alikes, U+212A/U+017F/U+0131/full-width look-alikes, percent-escaped spellings, other IP literals} x {8 port forms incl. the default ports 80/443} x {6 suffixes} + junk origins; complete product (free dimensions). non-trivial = Origin present and differs from the plain same-origin form; distinct by observation hash",
 		Assumptions: []string{"several Origin header lines are a don't-care", "Host values are ASCII (what net/http admits)"},
 		Budget:      map[string]time.Duration{"quick": 100 * time.Second, "thorough": 15 * time.Minute},
 		Bound:       map[string]string{"quick": "complete product with edits at every position over alphabet {a,.,-,:,@,/,%}", "thorough": "same with a larger edit alphabet (adds 0,Z,[,],\\,?,#,space)"},
@@ -115,6 +116,7 @@ func c13Scenarios(tier string) []*explore.Scenario {
 			c13Judge(x, h, j, true, false)
 		}})
 		scs = append(scs, &explore.Scenario{Name: fmt.Sprintf("c13/host=%s/no-origin", h), Bound: 0, Body: func(x *explore.Ctx) { c13Judge(x, h, "", false, false) }})
+		scs = append(scs, &explore.Scenario{Name: fmt.Sprintf("c13/host=%s/decoys", h), Bound: 0, Body: func(x *explore.Ctx) { c13Decoys(x, h) }})
 	}
 	return scs
 }
@@ -134,7 +136,7 @@ func c13Body(x *explore.Ctx, reqHost string, si int, alphabet string) {
 	}
 	oh := edits[x.Pick(len(edits), "host-edit")]
 	var port string
-	switch x.Pick(5, "port") {
+	switch x.Pick(8, "port") {
 	case 0:
 		if hp != "" {
 			port = ":" + hp
@@ -147,6 +149,12 @@ func c13Body(x *explore.Ctx, reqHost string, si int, alphabet string) {
 		port = ":"
 	case 4:
 		port = ":" + hp + "0"
+	case 5:
+		port = ":80" // default ports are not "normalised away": Host has no port (or another one)
+	case 6:
+		port = ":443"
+	case 7:
+		port = ":0"
 	}
 	suf := c13Suffix[x.Pick(len(c13Suffix), "suffix")]
 	if strings.Contains(suf, "%s") {
@@ -187,4 +195,38 @@ func c13Judge(x *explore.Ctx, reqHost, origin string, hasOrigin, plainSame bool)
 	if plainSame {
 		x.Check(accepted, "C13:same-origin-rejected", "well-formed same-origin request rejected: Origin %q Host %q: %v", origin, reqHost, err)
 	}
+}
+
+// c13Decoys: a foreign Origin together with other places a sloppy check might look at.
+func c13Decoys(x *explore.Ctx, reqHost string) {
+	evil := "http://evil.example.org"
+	hdr := http.Header{"Connection": {"Upgrade"}, "Upgrade": {"websocket"}, "Sec-Websocket-Version": {"13"}, "Sec-Websocket-Key": {b64n(16)}}
+	req := &http.Request{Method: "GET", Header: hdr, Host: reqHost, Proto: "HTTP/1.1", ProtoMajor: 1, ProtoMinor: 1}
+	switch x.Pick(6, "decoy") {
+	case 0:
+		hdr["Origin"] = []string{evil, "http://other.example.net"} // two lines, both foreign
+	case 1:
+		hdr["Origin"] = []string{evil}
+		hdr["X-Forwarded-Host"] = []string{"evil.example.org"}
+	case 2:
+		hdr["Origin"] = []string{evil}
+		hdr["Referer"] = []string{"http://" + reqHost + "/page"}
+	case 3:
+		hdr["Origin"] = []string{evil}
+		req.URL = &url.URL{Scheme: "http", Host: "evil.example.org", Path: "/ws"}
+	case 4:
+		hdr["Origin"] = []string{evil}
+		hdr["Forwarded"] = []string{"host=evil.example.org"}
+	case 5:
+		hdr["Origin"] = []string{evil}
+		hdr["Sec-Websocket-Origin"] = []string{"http://" + reqHost}
+	}
+	nc := netsim.NewConn(nil)
+	w := newFakeRW(nc, 0, nil)
+	u := &websocket.Upgrader{}
+	conn, _ := u.Upgrade(w, req, nil)
+	x.NonTrivial()
+	x.Obs("host=%q hdr=%v accepted=%v status=%d", reqHost, hdr["Origin"], conn != nil, w.Status)
+	x.Check(conn == nil, "C13:foreign-origin-accepted-with-decoy", "foreign Origin %q accepted for Host %q (other headers: %v)", hdr["Origin"], reqHost, hdr)
+	x.Check(w.Status == 403, "C13:reject-status", "foreign origin rejected with status %d, want 403", w.Status)
 }
